@@ -502,6 +502,9 @@ class Ctx:
             cov['notes'] = self.notes
         if not cov['samples']:
             cov['samples'] = ['(no case recorded)']
+        if 'exhaustive' in cov and not isinstance(cov['exhaustive'], bool):   # schema: a boolean; details go beside it
+            cov['exhaustive_spaces'] = cov['exhaustive']
+            cov['exhaustive'] = bool(cov['exhaustive'])
         ev = {
             'property_id': self.prop,
             'tier': self.tier,
